@@ -225,6 +225,42 @@ def c20_nested_nonblock_labelled_do_is_exponential():
     return c8 <= 8 * c4 + 200, dict(calls_depth4=c4, calls_depth8=c8)
 
 
+def c20_nested_calls_are_exponential():
+    """D23: nested references f(f(f(a))): rule-constructor calls double per nesting level"""
+    from fparser.two import utils as U
+    def count(n):
+        e = "a"
+        for _ in range(n):
+            e = "f(%s)" % e
+        parser = _parser()
+        calls = [0]
+        orig = U.Base.__new__
+        def counting(cls, *a, **k):
+            calls[0] += 1
+            return orig(cls, *a, **k)
+        U.Base.__new__ = staticmethod(counting)
+        try:
+            parser(_reader("program p\nx = %s\nend program p\n" % e))
+        finally:
+            U.Base.__new__ = orig
+        return calls[0]
+    c4, c8 = count(4), count(8)
+    return c8 <= 8 * c4 + 200, dict(calls_depth4=c4, calls_depth8=c8)
+
+
+def c13_include_drops_omp_conditional_option():
+    """D24: '!$ i = 3' inside an included file is compiled exactly when it would be in the main file"""
+    import tempfile, os
+    from fparser.common.readfortran import FortranStringReader
+    with tempfile.TemporaryDirectory() as d:
+        open(os.path.join(d, "o.inc"), "w").write("  !$ i = 3\n")
+        main = "program p\n  integer :: i\n  include 'o.inc'\nend program p\n"
+        full = "program p\n  integer :: i\n  !$ i = 3\nend program p\n"
+        a = str(_parser()(FortranStringReader(main, include_dirs=[d], include_omp_conditional_lines=True)))
+        b = str(_parser()(FortranStringReader(full, include_omp_conditional_lines=True)))
+    return a == b, dict(with_include=a, inline=b)
+
+
 def c14_directive_backslash_at_eof():
     """D9: a directive whose last line ends in a backslash at end of input is lost"""
     r = _reader("x = 1\n#define X \\\n")
